@@ -10,8 +10,12 @@
 #include <kernel/solver/jacobi_precond.hpp>
 #include <kernel/solver/multigrid.hpp>
 #include <control/blocked_basic.hpp>
+#include <control/asm/slip_filter_asm.hpp>
+#include <kernel/lafem/slip_filter.hpp>
 
 #include <cmath>
+#include <map>
+#include <set>
 
 using namespace FEAT;
 
@@ -28,6 +32,8 @@ namespace
     std::vector<double> ax, sol;
     double dot = 0, norm2 = 0, def_init = 0, def_final = 0;
     double noise_sol = 0; long noise_iters = 0;   // reference world: noise floor of the solve (see c13_kit.hpp)
+    std::vector<std::pair<long long, std::pair<double, double>>> slip;   // synchronised slip filter: DOF key -> unit outer normal
+    std::vector<double> slip_filtered;   // a consistent vector after filter_def, two components per DOF
     int status = -1; Index iters = 0; int cmax = 0, cmin = 0; std::string chosen;
   };
   struct Shared { wc::VertexDict dict; std::vector<RankOut> a, b; };
@@ -115,6 +121,25 @@ namespace
     SystemLevelType& the_system_level = *system_levels.front();
     out.keys = dof_keys(the_domain_level.get_mesh());
     const Index nd = Index(out.keys.size());
+    {
+      // slip filter on the whole boundary: every rank assembles the normals of its own boundary facets, the gate adds them
+      // up and they are normalised - must give the filter of the undecomposed mesh on every rank that holds the DOF
+      LAFEM::SlipFilter<double, Index, 2> slip;
+      Control::Asm::asm_slip_filter(slip, the_domain_level, the_domain_level.space, String("*"));
+      Control::Asm::sync_slip_filter(the_system_level.gate_sys, slip);
+      const auto& fv = slip.get_filter_vector();
+      for(Index k = 0; k < fv.used_elements(); ++k)
+      {
+        const Index d = fv.indices()[k];
+        const auto nv = fv.template elements<LAFEM::Perspective::native>()[k];
+        out.slip.push_back({out.keys[d], {double(nv[0]), double(nv[1])}});
+      }
+      // the observable: a consistent (type-1) vector filtered by every rank
+      LocalVector fv1(nd);
+      for(Index d = 0; d < nd; ++d) { Tiny::Vector<double, 2> a; a[0] = g_val(out.keys[d], 7, 0); a[1] = g_val(out.keys[d], 7, 1); fv1(d, a); }
+      slip.filter_def(fv1);
+      for(Index d = 0; d < nd; ++d) { out.slip_filtered.push_back(fv1(d)[0]); out.slip_filtered.push_back(fv1(d)[1]); }
+    }
     GlobalSystemVector gx = the_system_level.matrix_sys.create_vector_r();
     GlobalSystemVector gy = the_system_level.matrix_sys.create_vector_r();
     GlobalSystemVector gr = the_system_level.matrix_sys.create_vector_l();
@@ -223,6 +248,34 @@ namespace
         ++CNT.matvec;
         if(!close(r.ax[2 * d + c], B.ax[2 * it->second + c], 1e-12, s_ax)) sim::fail("MATVEC", "blocked A*x differs from the one-process product");
         if(!(std::abs(r.sol[2 * d + c] - B.sol[2 * it->second + c]) <= 1e-7 * s_sol + 1e3 * B.noise_sol)) sim::fail("SOLUTION", "blocked discrete solution differs from the one-process solution");
+      }
+    }
+    {
+      // slip filter: reference normals by key; every rank that holds a slip DOF must list it with the same unit normal
+      std::map<long long, std::pair<double, double>> ref;
+      for(const auto& e : B.slip) ref[e.first] = e.second;
+      if(ref.size() != B.slip.size()) sim::fail("INFRA", "duplicate keys in the reference slip filter");
+      for(const RankOut& r : A)
+      {
+        std::set<long long> mine(r.keys.begin(), r.keys.end()), listed;
+        for(const auto& e : r.slip)
+        {
+          listed.insert(e.first);
+          auto it = ref.find(e.first);
+          if(it == ref.end()) sim::fail("SLIP_FILTER", "a rank lists a slip DOF that is none in the one-process filter");
+          if(std::abs(e.second.first - it->second.first) > 1e-12 || std::abs(e.second.second - it->second.second) > 1e-12)
+            sim::fail("SLIP_FILTER", "synchronised slip normal (" + std::to_string(e.second.first) + ", " + std::to_string(e.second.second) + ") differs from the one-process normal (" + std::to_string(it->second.first) + ", " + std::to_string(it->second.second) + ")");
+        }
+        // the distributed filtered vector must equal the one-process filtered vector at every DOF of every rank
+        for(size_t d = 0; d < r.keys.size(); ++d)
+        {
+          auto it = bidx.find(r.keys[d]);
+          if(it == bidx.end()) continue;
+          for(size_t c = 0; c < 2; ++c)
+            if(std::abs(r.slip_filtered[2 * d + c] - B.slip_filtered[2 * it->second + c]) > 1e-10)
+              sim::fail("SLIP_FILTER", "slip-filtered vector differs from the one-process result at a DOF: " + std::to_string(r.slip_filtered[2 * d + c]) + " vs " + std::to_string(B.slip_filtered[2 * it->second + c]) +
+                (mine.count(r.keys[d]) && ref.count(r.keys[d]) && !listed.count(r.keys[d]) ? " (the rank holds this DOF of the slip boundary, but its synchronised filter does not list it)" : ""));
+        }
       }
     }
     CNT.iters += A[0].iters;
